@@ -108,13 +108,18 @@ func numImpl(v float64) (numObs, *model.ScaledNumberType) {
 	sn := model.NewScaledNumberType(v)
 	// the intermediate columns `decimals` and `product`: the expressions RECOVERED FROM THE SOURCE, evaluated by the
 	// Go runtime (they tie the model's decimals count and product to the code's text, to strconv and to math)
-	nd := numDecimals(v)
-	p := v * math.Pow(10, float64(nd))
+	var nd int
+	var p float64
 	if src := numScaledSrc(); src != nil {
 		nd = src.Decimals(v)
-		if x, err := src.Product.Eval(h.FEnv{Param: v, Decimals: int64(nd)}); err == nil {
-			p = x
+		x, err := src.Product.Eval(h.FEnv{Param: v, Decimals: int64(nd)})
+		if err != nil {
+			panic("harness: the recovered product expression cannot be evaluated: " + err.Error())
 		}
+		p = x
+	} else {
+		nd = numDecimals(v)
+		p = v * math.Pow(10, float64(nd))
 	}
 	o := numObs{vb: math.Float64bits(v), nd: nd, pb: math.Float64bits(p), number: numNil, scale: -128}
 	if sn != nil && sn.Number != nil {
